@@ -382,6 +382,10 @@ class TFLiteSerialiser:
                 if tens is not None:
                     tensor_set[tens] = None
 
+        # Subgraph outputs that are not produced by an op (constants) might not be referenced by any op that is written
+        for tens in sg.output_tensors:
+            tensor_set[tens] = None
+
         all_tensors = [tens for nm, idx, tens in sorted((tens.name, idx, tens) for idx, tens in enumerate(tensor_set))]
 
         scratch_tensors = [tens for tens in all_tensors if tens.purpose is TensorPurpose.Scratch]
